@@ -20,14 +20,14 @@ import (
 )
 
 type Engine struct {
-	repo   string
-	module string
-	prog   *ssa.Program
-	pkgs   []*packages.Package
-	spkgs  []*ssa.Package
-	specs  *SpecSet
-	byPath map[string]*ssa.Package
-	fnIdx  map[string]*ssa.Function
+	repo     string
+	module   string
+	prog     *ssa.Program
+	pkgs     []*packages.Package
+	spkgs    []*ssa.Package
+	specs    *SpecSet
+	byPath   map[string]*ssa.Package
+	fnIdx    map[string]*ssa.Function
 	loadSecs float64
 }
 
@@ -188,18 +188,18 @@ func (e *Engine) newTrans(fn *ssa.Function, ct *Contract, key string, inst strin
 		dtSeen: map[string]bool{}, declared: map[string]bool{}, compSort: map[string]string{}, vals: map[ssa.Value]Val{},
 		blkOut: map[*ssa.BasicBlock]*State{}, reach: map[*ssa.BasicBlock]string{}, edgeC: map[[2]int]string{},
 		counters: map[string]int{}, abstr: map[string]bool{}, trusted: map[string]bool{}, strs: map[string]string{}, typeIDs: map[string]int{},
-		sentinels: map[string]string{}, ranges: map[*ssa.Range]*rangeState{}, loopPre: map[*ssa.BasicBlock]*State{}, ghostDone: map[*ssa.Return]bool{}, compT: map[string]types.Type{}, gaddr: map[string]string{}}
+		sentinels: map[string]string{}, ranges: map[*ssa.Range]*rangeState{}, loopPre: map[*ssa.BasicBlock]*State{}, ghostDone: map[*ssa.Return]bool{}, compT: map[string]types.Type{}, gaddr: map[string]string{}, heldAtEntry: map[string][]string{}, autoInv: map[*ssa.BasicBlock][3]string{}, autoPhi: map[*ssa.BasicBlock]*ssa.Phi{}}
 }
 
 type FnResult struct {
-	Key    string
-	Inst   string
-	Obls   []*Obligation
-	Err    error
-	Abstr  []string
+	Key     string
+	Inst    string
+	Obls    []*Obligation
+	Err     error
+	Abstr   []string
 	Trusted []string
-	Loops  int
-	Lines  int
+	Loops   int
+	Lines   int
 }
 
 // VerifyFunction generates the obligations of one function under contract (one per instantiation).
@@ -290,6 +290,13 @@ const prelude = `(set-option :produce-models true)
 (declare-fun scmpgt (Str Str) Bool)
 (declare-fun scmpge (Str Str) Bool)
 (declare-fun bytes2str ((Array Int Int) Int Int) Str)
+(assert (forall ((a (Array Int Int)) (o Int) (n Int)) (! (=> (>= n 0) (= (slen (bytes2str a o n)) n)) :pattern ((bytes2str a o n)))))
+(assert (forall ((a Str) (b Str)) (! (= (slen (scat a b)) (+ (slen a) (slen b))) :pattern ((scat a b)))))
+(assert (forall ((a Str)) (! (and (= (scat a str_empty) a) (= (scat str_empty a) a)) :pattern ((scat a str_empty)) :pattern ((scat str_empty a)))))
+(declare-fun sprefix (Str Str) Bool)
+(assert (forall ((p Str) (s Str)) (! (=> (sprefix p s) (<= (slen p) (slen s))) :pattern ((sprefix p s)))))
+(assert (forall ((p Str) (x Str)) (! (sprefix p (scat p x)) :pattern ((scat p x)))))
+(assert (forall ((s Str)) (! (sprefix str_empty s) :pattern ((sprefix str_empty s)))))
 (declare-sort Float 0)
 (declare-fun fzero () Float)
 (declare-fun fadd (Float Float) Float)
@@ -334,6 +341,241 @@ func pow2Def() string {
 	return b.String()
 }
 
+// findForall locates the first "(forall ((bv$NAME SORT)) BODY)" subterm of s at or after from and
+// returns its start, end (exclusive), variable, sort and body.
+func findForall(s string, from int) (int, int, string, string, string, bool) {
+	i := strings.Index(s[from:], "(forall ((bv$")
+	if i < 0 {
+		return 0, 0, "", "", "", false
+	}
+	i += from
+	// variable list: single variable only
+	j := i + len("(forall ((")
+	k := strings.Index(s[j:], " ")
+	if k < 0 {
+		return 0, 0, "", "", "", false
+	}
+	name := s[j : j+k]
+	// sort: balanced up to the closing "))"
+	p := j + k + 1
+	depth := 0
+	q0 := p
+	for ; q0 < len(s); q0++ {
+		if s[q0] == '(' {
+			depth++
+		} else if s[q0] == ')' {
+			if depth == 0 {
+				break
+			}
+			depth--
+		}
+	}
+	sort := s[p:q0]
+	if q0+1 >= len(s) || s[q0+1] != ')' {
+		return 0, 0, "", "", "", false // more than one bound variable
+	}
+	bodyStart := q0 + 3
+	// end of the forall term
+	depth = 0
+	e := i
+	inq := false
+	for ; e < len(s); e++ {
+		c := s[e]
+		if c == '|' {
+			inq = !inq
+		}
+		if inq {
+			continue
+		}
+		if c == '(' {
+			depth++
+		} else if c == ')' {
+			depth--
+			if depth == 0 {
+				break
+			}
+		}
+	}
+	if e >= len(s) || bodyStart > e {
+		return 0, 0, "", "", "", false
+	}
+	return i, e + 1, name, sort, strings.TrimSpace(s[bodyStart:e]), true
+}
+
+func substVar(body, name, with string) string {
+	// bound variable names (bv$x) are not prefixes of other identifiers except bv$x1...: match on delimiters
+	var b strings.Builder
+	for i := 0; i < len(body); {
+		if strings.HasPrefix(body[i:], name) {
+			end := i + len(name)
+			if end == len(body) || strings.ContainsRune(" ()", rune(body[end])) {
+				if i == 0 || strings.ContainsRune(" ()", rune(body[i-1])) {
+					b.WriteString(with)
+					i = end
+					continue
+				}
+			}
+		}
+		b.WriteByte(body[i])
+		i++
+	}
+	return b.String()
+}
+
+// skolemHint: when the goal is universally quantified over one variable, prove it for a fresh
+// constant and offer the solver the instances of the (single-variable, same-sort) quantified
+// hypotheses at that constant. Sound: instances of hypotheses are consequences of them.
+func skolemHint(lines []string, goalNeg string) (extra []string, newGoal string) {
+	newGoal = goalNeg
+	st, en, name, sort, body, ok := findForall(goalNeg, 0)
+	if !ok || strings.Contains(body, "(forall ") || strings.Contains(body, "(exists ") {
+		return nil, goalNeg
+	}
+	sk := "sk$" + strings.TrimPrefix(name, "bv$")
+	extra = append(extra, fmt.Sprintf("(declare-fun %s () %s)", sk, sort))
+	newGoal = goalNeg[:st] + substVar(body, name, sk) + goalNeg[en:]
+	n := 0
+	for _, l := range lines {
+		if !strings.HasPrefix(l, "(assert ") {
+			continue
+		}
+		pos := 0
+		for n < 60 {
+			s2, e2, nm, so, bd, ok := findForall(l, pos)
+			if !ok {
+				break
+			}
+			pos = e2
+			if so != sort || strings.Contains(bd, "(forall ") {
+				continue
+			}
+			extra = append(extra, l[:s2]+substVar(bd, nm, sk)+l[e2:])
+			n++
+		}
+	}
+	return extra, newGoal
+}
+
+var reOffIdx = regexp.MustCompile(`\(\+ \(s\.off ([A-Za-z0-9_.$!@|]+)\) ([A-Za-z0-9_.$!@|]+)\)`)
+
+// indexHints: instances of single-variable quantified hypotheses whose body indexes a slice R at
+// (+ (s.off R) bv$x), at every ground index G for which (+ (s.off R) G) occurs in the VC. This is
+// E-matching modulo the "offset + index" shape of slice accesses, which the solvers' triggers
+// cannot do. Sound: instances of hypotheses.
+func indexHints(lines []string, goal string) []string {
+	ground := map[string][]string{} // slice term -> ground index terms
+	seen := map[string]bool{}
+	add := func(text string) {
+		for _, m := range reOffIdx.FindAllStringSubmatch(text, -1) {
+			if strings.HasPrefix(m[2], "bv$") || strings.HasPrefix(m[2], "ak") || strings.HasPrefix(m[2], "sk$") && false {
+				continue
+			}
+			k := m[1] + "|" + m[2]
+			if !seen[k] {
+				seen[k] = true
+				ground[m[1]] = append(ground[m[1]], m[2])
+			}
+		}
+	}
+	for _, l := range lines {
+		if !strings.Contains(l, "(forall ") {
+			add(l)
+		}
+	}
+	add(goal)
+	var out []string
+	n := 0
+	nsk := 0
+	work := append([]string{}, lines...)
+	for pass := 0; pass < 2; pass++ {
+		for li := 0; li < len(work); li++ {
+			l := work[li]
+			if !strings.HasPrefix(l, "(assert ") {
+				continue
+			}
+			pos := 0
+			for n < 60 {
+				s2, e2, nm, so, bd, ok := findForall(l, pos)
+				if !ok {
+					break
+				}
+				pos = e2
+				if so != "Int" || strings.Contains(bd, "(forall ") {
+					continue
+				}
+				for _, m := range reOffIdx.FindAllStringSubmatch(bd, -1) {
+					if m[2] != nm {
+						continue
+					}
+					for _, g := range ground[m[1]] {
+						inst := l[:s2] + substVar(bd, nm, g) + l[e2:]
+						if !seen["inst|"+inst] {
+							seen["inst|"+inst] = true
+							n++
+							// a positive existential at the end of a chain of implications: name its witness, so that
+							// the witness index becomes a ground term for further instances
+							if k := strings.Index(inst, "(exists ((bv$"); k >= 0 && strings.Count(inst[:k], "(forall") == 0 && onlyImplicationPrefix(inst[:k]) {
+								es, ee, enm, eso, ebd, ok2 := findExists(inst, k)
+								if ok2 && strings.Trim(inst[ee:], ")") == "" {
+									nsk++
+									w := fmt.Sprintf("ex$%d", nsk)
+									out = append(out, fmt.Sprintf("(declare-fun %s () %s)", w, eso))
+									inst = inst[:es] + substVar(ebd, enm, w) + inst[ee:]
+									add(inst)
+									work = append(work, inst) // may itself enable instances (it has no quantifier left)
+								}
+							}
+							out = append(out, inst)
+						}
+					}
+				}
+			}
+		}
+	}
+	return out
+}
+
+func onlyImplicationPrefix(p string) bool {
+	// "(assert (=> A (=> B " : every open paren group before the tail is an implication whose antecedent is closed
+	p = strings.TrimSpace(p)
+	if !strings.HasPrefix(p, "(assert ") {
+		return false
+	}
+	p = strings.TrimSpace(p[len("(assert "):])
+	for p != "" {
+		if !strings.HasPrefix(p, "(=> ") {
+			return false
+		}
+		p = p[4:]
+		// skip one balanced term (the antecedent)
+		depth, i := 0, 0
+		for ; i < len(p); i++ {
+			if p[i] == '(' {
+				depth++
+			} else if p[i] == ')' {
+				depth--
+			}
+			if depth == 0 && (p[i] == ' ' || p[i] == ')') {
+				if p[i] == ')' {
+					i++
+				}
+				break
+			}
+		}
+		if i >= len(p) {
+			return strings.TrimSpace(p[i:]) == ""
+		}
+		p = strings.TrimSpace(p[i:])
+	}
+	return true
+}
+
+func findExists(s string, from int) (int, int, string, string, string, bool) {
+	t := strings.Replace(s[from:], "(exists ((bv$", "(forall ((bv$", 1)
+	st, en, nm, so, bd, ok := findForall(s[:from]+t, from)
+	return st, en, nm, so, bd, ok
+}
+
 func (t *FnTrans) assemble(o *Obligation) string {
 	var b strings.Builder
 	b.WriteString("; obligation " + o.Name + "\n")
@@ -343,7 +585,29 @@ func (t *FnTrans) assemble(o *Obligation) string {
 	if o.Pos.IsValid() {
 		b.WriteString("; at " + o.Pos.String() + "\n")
 	}
-	b.WriteString(prelude)
+	body := strings.Join(t.lines[:o.NLines], "\n") + o.Goal + o.Guard
+	for _, l := range strings.Split(prelude, "\n") {
+		if strings.HasPrefix(l, "(assert (forall") {
+			if o.Expect == "sat" {
+				// vacuity covers: the fixed background axioms (consistent by construction) are left out so that
+				// the solver can return a model; what is checked is that the contract's own assumptions are satisfiable
+				continue
+			}
+			// background axioms are included only when the symbol they are about occurs in the VC
+			// (unused quantified axioms made unrelated quantified obligations unstable)
+			need := ""
+			for _, sym := range []string{"bytes2str", "scat", "sprefix", "err.is", "slen"} {
+				if strings.Contains(l, "("+sym+" ") {
+					need = sym
+					break
+				}
+			}
+			if need != "" && !strings.Contains(body, need) {
+				continue
+			}
+		}
+		b.WriteString(l + "\n")
+	}
 	usesPow := strings.Contains(o.Goal, "pow2")
 	if !usesPow {
 		usesPow = strings.Contains(o.Guard, "pow2")
@@ -365,8 +629,20 @@ func (t *FnTrans) assemble(o *Obligation) string {
 	for _, l := range t.lines[:o.NLines] {
 		b.WriteString(l + "\n")
 	}
+	if o.Expect != "sat" {
+		for _, h := range indexHints(t.lines[:o.NLines], o.Goal) {
+			b.WriteString(h + "\n")
+		}
+	}
 	if o.Expect == "sat" {
 		b.WriteString("(assert " + o.Goal + ")\n")
+	} else if strings.HasPrefix(o.Goal, "(forall ((bv$") {
+		// goal: guard => forall x. body   ~~>   refute  guard /\ not body[sk]
+		extra, g := skolemHint(t.lines[:o.NLines], o.Goal)
+		for _, e := range extra {
+			b.WriteString(e + "\n")
+		}
+		b.WriteString("(assert (not " + implies(o.Guard, g) + "))\n")
 	} else {
 		b.WriteString("(assert (not " + implies(o.Guard, o.Goal) + "))\n")
 	}
@@ -396,12 +672,18 @@ type solverSpec struct {
 	args func(file string, secs int) []string
 }
 
+var solverSeed = 0
+
 var solvers = []solverSpec{
-	{"z3-new", func(f string, s int) []string { return []string{"z3-new", "-smt2", fmt.Sprintf("-T:%d", s), f} }},
-	{"cvc5", func(f string, s int) []string {
-		return []string{"cvc5", "--lang=smt2", fmt.Sprintf("--tlimit=%d", s*1000), f}
+	{"z3-new", func(f string, s int) []string {
+		return []string{"z3-new", "-smt2", fmt.Sprintf("-T:%d", s), fmt.Sprintf("smt.random_seed=%d", solverSeed), f}
 	}},
-	{"z3", func(f string, s int) []string { return []string{"z3", "-smt2", fmt.Sprintf("-T:%d", s), f} }},
+	{"cvc5", func(f string, s int) []string {
+		return []string{"cvc5", "--lang=smt2", fmt.Sprintf("--tlimit=%d", s*1000), fmt.Sprintf("--seed=%d", solverSeed), f}
+	}},
+	{"z3", func(f string, s int) []string {
+		return []string{"z3", "-smt2", fmt.Sprintf("-T:%d", s), fmt.Sprintf("smt.random_seed=%d", solverSeed), f}
+	}},
 }
 
 func runSolver(sp solverSpec, file string, secs int, ctx context.Context) (verdict string, out string, dur float64) {
@@ -455,6 +737,7 @@ func parseModel(out string) map[string]string {
 
 func solveAll(obls []*Obligation, opt SolveOpts) map[string]*solverStat {
 	os.MkdirAll(opt.OutDir, 0o755)
+	solverSeed = opt.Seed
 	stats := map[string]*solverStat{}
 	var mu sync.Mutex
 	sem := make(chan struct{}, opt.Parallel)
@@ -519,14 +802,23 @@ func solveOne(o *Obligation, opt SolveOpts, rec func(string, float64, bool)) {
 		}
 		return
 	}
+	if want == "sat" {
+		// vacuity covers: satisfiability with quantified axioms in scope is often "unknown"; one cheap attempt is enough
+		// (an unsat answer - contradictory assumptions - is what matters and comes back quickly)
+		o.Verdict, o.Solver, o.Output = v, solvers[0].name, out
+		if v != "unsat" && v != "sat" {
+			o.Verdict = "unknown"
+		}
+		return
+	}
 	first := v
 	firstOut := out
 	// stage 2: race all three with the full budget
 	type res struct {
-		s    string
-		v    string
-		out  string
-		d    float64
+		s   string
+		v   string
+		out string
+		d   float64
 	}
 	ch := make(chan res, len(solvers))
 	cctx, cancel := context.WithCancel(ctx)
